@@ -470,6 +470,7 @@ printf("dgssvx: Fact=%4d, Trans=%4d, equed=%c\n",
     if (*info != 0) {
 	i = -(*info);
 	input_error("sgssvx", &i);
+	SLU_VHOOK("P:Phase", "\"name\":\"Rejected\",\"info\":%lld", (long long) *info);
 	return;
     }
 
@@ -484,6 +485,7 @@ printf("dgssvx: Fact=%4d, Trans=%4d, equed=%c\n",
 			   sp_ienv(1), sp_ienv(6), L, U, Glu, &iwork0, &dwork0);
 	SUPERLU_FREE(Glu->expanders);
 	Glu->expanders = NULL;
+	SLU_VHOOK("P:Phase", "\"name\":\"Query\",\"info\":%lld", (long long) *info);
 	mem_usage->total_needed = *info - A->ncol;
 	return;
     }
@@ -503,6 +505,7 @@ printf("dgssvx: Fact=%4d, Trans=%4d, equed=%c\n",
 	sCreate_CompCol_Matrix(AA, A->ncol, A->nrow, Astore->nnz, 
 			       Astore->nzval, Astore->colind, Astore->rowptr,
 			       SLU_NC, A->Dtype, A->Mtype);
+	SLU_VHOOK("P:Phase", "\"name\":\"Convert\",\"info\":%lld", (long long) *info);
 	if ( notran ) { /* Reverse the transpose argument. */
 	    trant = TRANS;
 	    notran = 0;
@@ -527,6 +530,7 @@ printf("dgssvx: Fact=%4d, Trans=%4d, equed=%c\n",
 	    colequ = strncmp(equed, "C", 1)==0 || strncmp(equed, "B", 1)==0;
 	}
 	utime[EQUIL] = SuperLU_timer_() - t0;
+	SLU_VHOOK("P:Phase", "\"name\":\"Equil\",\"info\":%lld", (long long) *info);
     }
 
 
@@ -544,11 +548,13 @@ printf("dgssvx: Fact=%4d, Trans=%4d, equed=%c\n",
 	permc_spec = options->ColPerm;
 	if ( permc_spec != MY_PERMC && options->Fact == DOFACT )
             get_perm_c(permc_spec, AA, perm_c);
+            if ( permc_spec != MY_PERMC && options->Fact == DOFACT ) SLU_VHOOK("P:Phase", "\"name\":\"Order\",\"info\":%lld", (long long) *info);
 	utime[COLPERM] = SuperLU_timer_() - t0;
 
 	t0 = SuperLU_timer_();
 	sp_preorder(options, AA, perm_c, etree, &AC);
 	utime[ETREE] = SuperLU_timer_() - t0;
+	SLU_VHOOK("P:Phase", "\"name\":\"Preorder\",\"info\":%lld", (long long) *info);
     
 /*	printf("Factor PA = LU ... relax %d\tw %d\tmaxsuper %d\trowblk %d\n", 
 	       relax, panel_size, sp_ienv(3), sp_ienv(4));
@@ -559,6 +565,7 @@ printf("dgssvx: Fact=%4d, Trans=%4d, equed=%c\n",
 	sgstrf(options, &AC, relax, panel_size, etree,
                 work, lwork, perm_c, perm_r, L, U, Glu, stat, info);
 	utime[FACT] = SuperLU_timer_() - t0;
+	SLU_VHOOK("P:Phase", "\"name\":\"Factor\",\"info\":%lld", (long long) *info);
 	
 	if ( lwork == -1 ) {
 	    mem_usage->total_needed = *info - A->ncol;
@@ -567,10 +574,12 @@ printf("dgssvx: Fact=%4d, Trans=%4d, equed=%c\n",
     }
 
     if ( *info > 0 ) { 
+        if ( *info <= A->ncol ) SLU_VHOOK("P:Phase", "\"name\":\"Singular\",\"info\":%lld", (long long) *info); else SLU_VHOOK("P:Phase", "\"name\":\"NoMem\",\"info\":%lld", (long long) *info);
         if ( *info <= A->ncol ) { /* singular */
 	    /* Compute the reciprocal pivot growth factor of the leading
 	       rank-deficient (*info) columns of A. */
 	    *recip_pivot_growth = sPivotGrowth(*info, AA, perm_c, L, U);
+	    SLU_VHOOK("P:Phase", "\"name\":\"Growth\",\"info\":%lld", (long long) *info);
         }
 	if ( nofact ) Destroy_CompCol_Permuted(&AC);
 	if ( A->Stype == SLU_NR ) {
@@ -585,6 +594,7 @@ printf("dgssvx: Fact=%4d, Trans=%4d, equed=%c\n",
     if ( options->PivotGrowth ) {
         /* Compute the reciprocal pivot growth factor *recip_pivot_growth. */
         *recip_pivot_growth = sPivotGrowth(A->ncol, AA, perm_c, L, U);
+        SLU_VHOOK("P:Phase", "\"name\":\"Growth\",\"info\":%lld", (long long) *info);
     }
 
     if ( options->ConditionNumber ) {
@@ -598,6 +608,7 @@ printf("dgssvx: Fact=%4d, Trans=%4d, equed=%c\n",
         anorm = slangs(norm, AA);
         sgscon(norm, L, U, anorm, rcond, stat, &info1);
         utime[RCOND] = SuperLU_timer_() - t0;
+        SLU_VHOOK("P:Phase", "\"name\":\"Cond\",\"info\":%lld", (long long) *info);
     }
     
     if ( nrhs > 0 ) {
@@ -607,21 +618,25 @@ printf("dgssvx: Fact=%4d, Trans=%4d, equed=%c\n",
 	        for (j = 0; j < nrhs; ++j)
 		    for (i = 0; i < A->nrow; ++i)
 		        Bmat[i + j*ldb] *= R[i];
+		        SLU_VHOOK("P:Phase", "\"name\":\"ScaleB\",\"info\":%lld", (long long) *info);
 	    }
         } else if ( colequ ) {
 	    for (j = 0; j < nrhs; ++j)
 	        for (i = 0; i < A->nrow; ++i)
 	            Bmat[i + j*ldb] *= C[i];
+	            SLU_VHOOK("P:Phase", "\"name\":\"ScaleB\",\"info\":%lld", (long long) *info);
         }
 
         /* Compute the solution matrix X. */
         for (j = 0; j < nrhs; j++)  /* Save a copy of the right hand sides */
             for (i = 0; i < B->nrow; i++)
 	        Xmat[i + j*ldx] = Bmat[i + j*ldb];
+	        SLU_VHOOK("P:Phase", "\"name\":\"CopyBX\",\"info\":%lld", (long long) *info);
     
         t0 = SuperLU_timer_();
         sgstrs (trant, L, U, perm_c, perm_r, X, stat, &info1);
         utime[SOLVE] = SuperLU_timer_() - t0;
+        SLU_VHOOK("P:Phase", "\"name\":\"Solve\",\"info\":%lld", (long long) *info);
     
         /* Use iterative refinement to improve the computed solution and compute
            error bounds and backward error estimates for it. */
@@ -629,8 +644,10 @@ printf("dgssvx: Fact=%4d, Trans=%4d, equed=%c\n",
         if ( options->IterRefine != NOREFINE ) {
             sgsrfs(trant, AA, L, U, perm_c, perm_r, equed, R, C, B,
                    X, ferr, berr, stat, &info1);
+                   SLU_VHOOK("P:Phase", "\"name\":\"Refine\",\"info\":%lld", (long long) *info);
         } else {
             for (j = 0; j < nrhs; ++j) ferr[j] = berr[j] = 1.0;
+            SLU_VHOOK("P:Phase", "\"name\":\"NoRefine\",\"info\":%lld", (long long) *info);
         }
         utime[REFINE] = SuperLU_timer_() - t0;
 
@@ -640,11 +657,13 @@ printf("dgssvx: Fact=%4d, Trans=%4d, equed=%c\n",
 	        for (j = 0; j < nrhs; ++j)
 		    for (i = 0; i < A->nrow; ++i)
                         Xmat[i + j*ldx] *= C[i];
+                        SLU_VHOOK("P:Phase", "\"name\":\"UnscaleX\",\"info\":%lld", (long long) *info);
 	    }
         } else if ( rowequ ) {
 	    for (j = 0; j < nrhs; ++j)
 	        for (i = 0; i < A->nrow; ++i)
 	            Xmat[i + j*ldx] *= R[i];
+	            SLU_VHOOK("P:Phase", "\"name\":\"UnscaleX\",\"info\":%lld", (long long) *info);
         }
     } /* end if nrhs > 0 */
 
@@ -652,9 +671,11 @@ printf("dgssvx: Fact=%4d, Trans=%4d, equed=%c\n",
         /* Set INFO = A->ncol+1 if the matrix is singular to working precision. */
         /*if ( *rcond < slamch_("E") ) *info = A->ncol + 1;*/
         if ( *rcond < smach("E") ) *info = A->ncol + 1;
+        if ( *info == A->ncol + 1 ) SLU_VHOOK("P:Phase", "\"name\":\"Warn\",\"info\":%lld", (long long) *info);
     }
 
     if ( nofact ) {
+        SLU_VHOOK("P:Phase", "\"name\":\"Cleanup\",\"info\":%lld", (long long) *info);
         sQuerySpace(L, U, mem_usage);
         Destroy_CompCol_Permuted(&AC);
     }
